@@ -73,7 +73,11 @@ impl<T> InnerQueue<T> {
         match self.queue.pop() {
             Some(data) => Ok(data),
             None => match self.tx_ports.load(Ordering::Acquire) {
-                0 => Err(RecvTimeoutError::Disconnected),
+                0 => {
+                    // we took the disconnect permit, hand it on to the next receiver
+                    self.sem.post();
+                    Err(RecvTimeoutError::Disconnected)
+                }
                 _n => unreachable!("mpmc recv found no data"),
             },
         }
@@ -81,16 +85,24 @@ impl<T> InnerQueue<T> {
 
     pub fn try_recv(&self) -> Result<T, TryRecvError> {
         if !self.sem.try_wait() {
-            return match self.tx_ports.load(Ordering::Acquire) {
-                0 => Err(TryRecvError::Disconnected),
-                _ => Err(TryRecvError::Empty),
-            };
+            if self.tx_ports.load(Ordering::Acquire) != 0 {
+                return Err(TryRecvError::Empty);
+            }
+            // there is no sender any more, but a last value may have been
+            // posted since the first attempt: re-check
+            if !self.sem.try_wait() {
+                return Err(TryRecvError::Disconnected);
+            }
         }
 
         match self.queue.pop() {
             Some(data) => Ok(data),
             None => match self.tx_ports.load(Ordering::Acquire) {
-                0 => Err(TryRecvError::Disconnected),
+                0 => {
+                    // we took the disconnect permit, hand it on to the next receiver
+                    self.sem.post();
+                    Err(TryRecvError::Disconnected)
+                }
                 _ => unreachable!("mpmc try_recv found no data"),
             },
         }
@@ -104,10 +116,9 @@ impl<T> InnerQueue<T> {
         match self.tx_ports.fetch_sub(1, Ordering::SeqCst) {
             1 => {
                 // there is no tx port any more
-                // should tell all the waited rx to come back
-                while self.sem.get_value() == 0 {
-                    self.sem.post();
-                }
+                // should tell all the waited rx to come back: one extra permit that
+                // every receiver which finds no data hands on to the next one
+                self.sem.post();
             }
             n if n > 1 => {}
             n => panic!("bad number of tx_ports left {n}"),
